@@ -884,6 +884,13 @@ def gen_nested():
         cfg = norm(dict(devs=devs, horizon=16))
         cfg['family'] = 'nested-batch'
         out.append(cfg)
+    # the budget of a source cut down to (or below) what it has supplied while its next part waits in the output slot
+    # for a busy machine: that part must not leave any more
+    for cut, t, slow in ((-4, 12, 40), (-9, 6, 30), (-3, 10, 24)):
+        devs = [src(4, 5, pval=1), dev('processor', [1], cyc=slow), dev('sink', [2], cyc=0)]
+        cfg = norm(dict(devs=devs, script=[dict(t=t, call='adjust', dev=1, arg=cut)], horizon=slow + 40))
+        cfg['family'] = 'budget-cut-while-waiting'
+        out.append(cfg)
     return out
 
 
